@@ -59,16 +59,16 @@ CHECKS = {
 SUFFIX = {
  "C05": " Also repeated in a build with -C target-cpu=native; one run in four uses trait-qualified (generic) call sites; giant requests (2^31 / 2^32 + k bytes into an aliased 4 GiB window); other-targets pass: Miri interprets a history program for s390x (big-endian), i686 (32-bit), aarch64 and (thorough) mips, x86_64-windows, aarch64-macOS, digests must equal the host's; word hunts (2^28 HC-128 / ISAAC words searched for zero, all-ones and repeated words, short calls made right there).",
  "C08": " Repeated in a build with --cfg fuzzing; runs are also executed on fresh threads and once more from a thread-local destructor while the thread exits.",
- "C09": " Repeated in a build with --cfg fuzzing; zero-sized source error types, long zero-block runs.",
- "C10": " == is probed per type and also evaluated on copies at different addresses/alignments; != next to ==; skew pairs that hand out the same number of bytes through different numbers of words.",
- "C11": " Thirteen ways of writing/reading the image: slice, framed inside a larger document, short-read readers, serde_json::Value, TOML, serde(flatten) / tagged / untagged embeddings, bincode options (varint, big-endian); far-along counter states.",
+ "C09": " Repeated in a build with --cfg fuzzing; zero-sized source error types, zero-sized source types (handles), long zero-block runs.",
+ "C10": " == is probed per type and also evaluated on copies at different addresses/alignments; != next to ==; skew pairs that hand out the same number of bytes through different numbers of words; birthday search over all pairs of 4096 unrelated HC-128 generators per run.",
+ "C11": " Thirteen ways of writing/reading the image: slice, framed inside a larger document, short-read readers, serde_json::Value, TOML, serde(flatten) / tagged / untagged embeddings, bincode options (varint, big-endian), a non-human-readable self-describing format (direct / flatten / tagged / untagged); far-along counter states.",
  "C12": " Also: long-haul histories (2^16 collections), contained set_rounds(0), nested use from inside another generator's timer callback, process history (real-clock JitterRng::new() first), wall-clock seam (real clock flying while the code runs), calendar-date seam (the real-clock constructor runs in 1970, 2038, 2106, 2262, 2554 ...), readings pinned to special values.",
  "C13": " Also steps back between probes, near-constant timers with tolerated steps, up to 300 backward probes, readings pinned to special values (all ones, sign boundaries).",
- "C14": " Also damaged snapshots (must fail, not panic; arrays replaced by strings with multi-byte characters among the damage kinds), runs repeated from a thread-local destructor at thread exit, the calendar-date seam, seeding sweeps, contained set_rounds(0), Debug while unwinding / on another thread, far-along ISAAC counters, every second worker with an unwritable stderr (/dev/full), an extra build with rand_jitter std-without-log, and a Miri part: single-threaded histories of all 20 types interpreted by Miri (undefined behaviour that does not panic).",
+ "C14": " Also damaged snapshots (must fail, not panic; arrays replaced by strings with multi-byte characters among the damage kinds), runs repeated from a thread-local destructor at thread exit, the calendar-date seam, a logger that refuses the crates' targets, seeding sweeps, contained set_rounds(0), Debug while unwinding / on another thread, far-along ISAAC counters, every second worker with an unwritable stderr (/dev/full), an extra build with rand_jitter std-without-log, and a Miri part: single-threaded histories of all 20 types interpreted by Miri (undefined behaviour that does not panic).",
  "C16": " Histories also contain timer_stats / test_timer / contained set_rounds(0), 2^16-collection long hauls, and the wall-clock seam.",
- "C17": " HC-128 marathons (2^27 words per twin). Texts under every formatter flag, also while unwinding / on another thread, after non-output operations; extra passes: build with --cfg fuzzing, every ALL_CAPS token of the compiled crates set as environment variable, and every ALL_CAPS string literal of their sources set in the environment of an extra BUILD; core runs prime the results buffers with public content before generate().",
+ "C17": " HC-128 marathons (2^27 words per twin). Texts under every formatter flag, also while unwinding / on another thread, after non-output operations; extra passes: build with --cfg fuzzing, every ALL_CAPS token of the compiled crates set as environment variable, and every ALL_CAPS string literal of their sources set in the environment of an extra BUILD; core runs prime the results buffers with public content before generate(); block marathons compare the text after every generate().",
  "C18": " Configurations include -C target-cpu=native and (thorough) opt-level 1 / s with overflow checks and debug assertions split; seeding sweeps and frozen-clock histories in the corpus; other-targets pass as in C05; the real-clock constructor (on shifted calendar dates) as first step of corpus histories.",
- "C19": " Also clones of JitterRng inside schedules, near-equal and quantised private clocks, same-thread nesting through the timer callback, public block cores driven through one shared scratch block, schedules under a logger that accepts everything, and a census family (2^16 collections in one process).",
+ "C19": " Also clones of JitterRng inside schedules, near-equal and quantised private clocks, same-thread nesting through the timer callback, public block cores driven through one shared scratch block, schedules under a logger that accepts everything, a census family (2^16 collections in one process), and the real-clock constructor as an instance (did it succeed).",
 }
 
 
